@@ -185,10 +185,14 @@ def r3_r4_guard_and_target(ctx, rep, R3='C15.R3', R4='C15.R4'):
     rep.check(not other, R3, 'no other condition suppresses the deletion of an orphan',
               'extra guard(s) %s: some orphans would survive' % other, key='guard:extra', func=FN,
               where=ctx.where(fi, u))
-    esc = [x for lp in (fl, wl) for x in ast.walk(lp) if isinstance(x, (ast.Break, ast.Return, ast.Continue))]
-    rep.check(not esc, R3, 'every file of every searched directory is examined',
-              'break/continue/return inside the clean-up loops', key='guard:complete', func=FN,
-              where=ctx.where(fi, fl))
+    outer_loops = [p for p in _parents(wl, fi.node) if isinstance(p, (ast.For, ast.While))]
+    esc = [x for lp in [fl, wl] + outer_loops for x in ast.walk(lp)
+           if isinstance(x, (ast.Break, ast.Return, ast.Continue))]
+    skip = [norm(e) for e, pos in path_literals(wl, fi.node) if not norm(e).endswith('keepbytecode')]
+    rep.check(not esc and not skip, R3, 'every file of every directory of every search root is examined',
+              'break/continue/return inside the clean-up loops, or the walk of a search root is '
+              'conditional (%s): some orphans would survive' % skip, key='guard:complete', func=FN,
+              where=ctx.where(fi, esc[0] if esc else fl))
     # the listing the source test looks at is the one of this walk step, unmodified
     muts = [c for c in ast.walk(wl) if isinstance(c, ast.Call) and isinstance(c.func, ast.Attribute)
             and is_name(c.func.value, files) and c.func.attr in ('remove', 'pop', 'clear', 'append')]
